@@ -97,6 +97,10 @@ func (h *transportHandle) Close() error {
 	}
 
 	err := h.Client.Goodbye()
+	if err != nil {
+		// Name the plugin, like handshake and generate failures do.
+		err = fmt.Errorf("plugin %q failed to say goodbye: %v", h.name, err)
+	}
 	if closer, ok := h.Transport.(io.Closer); ok {
 		err = multierr.Append(err, closer.Close())
 	}
